@@ -15,6 +15,7 @@ pub enum Case {
     Dsp(crate::dsp::Case),
     Thr(crate::thr::Case),
     Io(crate::io::Case),
+    Cmp(crate::cmp::Case),
 }
 
 /// Rebuild every hash map the scenario carries under the calling thread's `RandomState` keys. The scenario
@@ -50,6 +51,7 @@ impl Case {
             Case::Dsp(c) => c.hash_seed,
             Case::Thr(c) => c.hash_seed(),
             Case::Io(c) => c.hash_seed(),
+            Case::Cmp(c) => c.hash_seed,
         }
     }
     pub fn world_name(&self) -> &'static str {
@@ -62,6 +64,7 @@ impl Case {
             Case::Dsp(_) => "dsp",
             Case::Thr(_) => "thr",
             Case::Io(_) => "io",
+            Case::Cmp(_) => "cmp",
         }
     }
     pub fn size(&self) -> usize {
@@ -75,6 +78,7 @@ impl Case {
             Case::Mass(c) => c.ops.len() + c.init_spec.is_some() as usize + match c.target { crate::mass::Target::Consist { n } => n, _ => 1 },
             Case::Val(c) => c.links.len() + if c.only.is_some() { 0 } else { 1000 },
             Case::Pt(c) => c.ops.len() + c.locos.len(),
+            Case::Cmp(c) => c.ops.len() + (c.charge_buffer > 0.0) as usize + (c.disch_buffer > 0.0) as usize + (c.aux > 0.0) as usize,
             Case::Trk(c) => c.ops.len() + c.route.len() + c.links.iter().map(|l| l.elevs.len() + l.headings.len() + l.cat_power_limits.len() + l.speed_set.as_ref().map(|s| s.speed_limits.len() + s.speed_params.len()).unwrap_or(0)).sum::<usize>(),
         }
     }
@@ -94,7 +98,7 @@ pub struct PropInfo {
 
 const PT_REAL: &[&str] = &["altrios_core::consist::{Consist, Locomotive, FuelConverter, Generator, ElectricDrivetrain, ReversibleEnergyStorage} (real code)", "LocomotiveSimulation::walk / ConsistSimulation::walk (real code, cross-check driver)", "SerdeAPI save/load in yaml/json/bincode (real code)"];
 const PT_STUB: &[&str] = &["clock: the simulator issues every dt", "storage: in-memory byte buffers behind a simulated Read (short reads, EINTR)", "pyo3 layer: not run"];
-const PT_RULE: &str = "a case = generated consist/locomotive parameters + seeded op list (ticks with closed-loop demand policy, crash/restore, interval changes, over-limit requests); distinct = distinct hash of (scenario class, fault kinds fired, reach probes hit); non-trivial = at least 5 accepted ticks";
+const PT_RULE: &str = "a case = generated consist/locomotive parameters + seeded op list (ticks with closed-loop demand policy, crash/restore, interval changes, over-limit requests), or (C09: 15 %, C01 / C08: 6 % of the runs) the battery component driven alone the same way with charge / discharge buffers (world cmp); C01 only: one run in seven uses steps coarser than the derating bound; distinct = distinct hash of (scenario class, fault kinds fired, reach probes hit); non-trivial = at least 5 accepted ticks";
 
 const TRK_REAL: &[&str] = &["altrios_core::track::{PathTpc::extend/finish, insert_speed, TrainParams::speed_set_applies, Link} (real code)", "SerdeAPI save/load of the half-built PathTpc (real code)"];
 const TRK_STUB: &[&str] = &["storage: in-memory byte buffers behind a simulated Read", "train: TrainParams only (no train model in this world)"];
@@ -116,9 +120,9 @@ const DSP_REAL: &[&str] = &["make_est_times (real code, incl. thousands of Speed
 const DSP_STUB: &[&str] = &["the dispatcher's scheduler is NOT replaced: its schedule space is sampled through departure times (incl. ties), train order, lengths, directions, topology and lockouts", "no fault is injected into the dispatcher (it has no I/O); its own rewinds / re-routes are the fault-like events, counted by probes"];
 const DSP_RULE: &str = "a case = generated corridor (0-5 sidings that fit / do not fit the trains, optional lockout declarations) + 1-10 generated trains in both directions with departure times incl. ties; distinct = distinct hash of (scenario class, probes hit, the sequence of (train, outcome) moves the dispatcher made); non-trivial = at least 2 trains";
 
-const THR_REAL: &[&str] = &["LocomotiveSimulationVec::walk and every LocomotiveSimulation::walk/step under it (real code)", "the worlds trn / dsp / trk / val re-executed under different RandomState keys (real code)", "rayon branch of LocomotiveSimulationVec::walk in local pools of 1, 2, 4, 16 threads (real code, uncontrolled threads: observation, labelled as such)"];
+const THR_REAL: &[&str] = &["LocomotiveSimulationVec::walk and every LocomotiveSimulation::walk/step under it (real code)", "the worlds trn / dsp / trk / val / pt re-executed under different RandomState keys, rayon pool sizes and thread histories (real code)", "rayon branch of LocomotiveSimulationVec::walk in local pools of 1, 2, 4, 16 threads (real code, uncontrolled threads: observation, labelled as such)"];
 const THR_STUB: &[&str] = &["rayon's pool in the controlled runs: executor seam H2 reproducing try_for_each's contract on shuttle threads (W workers claim from a shared queue; after an error no new claims, in-flight elements finish)", "thread scheduler: shuttle Random / PCT, seeded", "getrandom(2): interposed, RandomState keys derived from the case"];
-const THR_RULE: &str = "a case = (a) batch of 1-12 generated locomotive simulations (some failing at a seeded step) + worker count 1-16 + scheduler (Random or PCT depth 2-4) + 24 (quick) / 60 (thorough) seeded schedules, or (b) a case of world trn/dsp/trk/val executed under hash keys A, A, B, or (c) a batch on a real rayon pool; distinct = distinct hash of (scenario class, fault kinds, probes, first 8 distinct claim orders seen); non-trivial = at least 2 elements and 2 workers (a, c) / the inner case's own rule (b)";
+const THR_RULE: &str = "a case = (a) batch of 1-12 generated locomotive simulations (some failing at a seeded step) + worker count 1-16 + scheduler (Random or PCT depth 2-4) + 24 (quick) / 60 (thorough) seeded schedules, or (b) a case of world trn/dsp/trk/val executed under hash keys A, A, B, or (c) a batch on a real rayon pool, or (d) a case of world pt/trn/dsp executed outside any pool and inside private rayon pools of 1, 2-4, 5-16 threads, or (e) a case of world pt/trn/dsp/trk executed on a fresh thread, after a different case on the same thread, and twice on one thread; distinct = distinct hash of (scenario class, fault kinds, probes, first 8 distinct claim orders seen); non-trivial = at least 2 elements and 2 workers (a, c) / the inner case's own rule (b)";
 
 const IO_REAL: &[&str] = &["SerdeAPI::{to_yaml,to_json,to_bincode,from_*,from_reader,to_file,from_file,init} of every exported type (real code)", "LocomotiveSimulation / ConsistSimulation / SetSpeedTrainSim / SpeedLimitTrainSim stepping before and after the reload (real code)", "real files in a private scratch directory (file channel)"];
 const IO_STUB: &[&str] = &["reader: simulated Read with short reads, EINTR, hard error at a seeded byte", "crash during a save: modelled after the fact by truncating the written bytes (exercised, not armed: nobody promises atomic saves)"];
@@ -197,6 +201,10 @@ pub fn generate(prop: &str, rng: &mut Rng, thorough: bool) -> Case {
         "C20" => Some(if rng.chance(0.05) { "trn" } else { "mass" }),
         // C17: the io world enumerates crash points; the pt world adds seeded crash ops with a fault-free twin
         "C17" => Some(if rng.chance(0.3) { "pt" } else { "io" }),
+        // the battery driven alone, with charge / discharge buffers (C09 quantifies over buffers; the
+        // locomotive models never pass any): a share of the C09 runs and a smaller share of C01 / C08
+        "C09" => Some(if rng.chance(0.15) { "cmp" } else { "pt" }),
+        "C01" | "C08" => Some(if rng.chance(0.06) { "cmp" } else { "pt" }),
         _ => info(prop).map(|i| i.world),
     };
     match world {
@@ -208,6 +216,7 @@ pub fn generate(prop: &str, rng: &mut Rng, thorough: bool) -> Case {
         Some("dsp") => Case::Dsp(crate::dsp::generate(rng, prop, thorough)),
         Some("thr") => Case::Thr(crate::thr::generate(rng, prop, thorough)),
         Some("io") => Case::Io(crate::io::generate(rng, prop, thorough)),
+        Some("cmp") => Case::Cmp(crate::cmp::generate(rng, prop, thorough)),
         _ => panic!("no world for property {prop}"),
     }
 }
@@ -222,6 +231,7 @@ pub fn execute(case: &Case, ctx: &mut Ctx) {
         Case::Dsp(c) => crate::dsp::execute(c, ctx),
         Case::Thr(c) => crate::thr::execute(c, ctx),
         Case::Io(c) => crate::io::execute(c, ctx),
+        Case::Cmp(c) => crate::cmp::execute(c, ctx),
     }
 }
 
@@ -234,6 +244,7 @@ pub fn shrink(case: &Case, v: &Violation) -> Vec<Case> {
         Case::Thr(c) => crate::thr::shrink(c).into_iter().map(Case::Thr).collect(),
         Case::Io(c) => crate::io::shrink(c).into_iter().map(Case::Io).collect(),
         Case::Pt(c) => crate::pt::shrink(c).into_iter().map(Case::Pt).collect(),
+        Case::Cmp(c) => crate::cmp::shrink(c).into_iter().map(Case::Cmp).collect(),
         Case::Trk(c) => crate::trk::shrink(c).into_iter().map(Case::Trk).collect(),
     }
 }
@@ -250,6 +261,8 @@ pub fn panic_property(case: &Case, layer: &str, location: &str) -> Option<&'stat
         }
         // building a path must never panic: speed-profile code -> C13, everything else in this world -> C06
         Case::Val(_) => Some("C16"),
+        // a component driven inside its published limits must not panic: limits / interpolation code -> C09
+        Case::Cmp(_) => Some("C09"),
         Case::Mass(_) => Some("C20"),
         Case::Thr(_) => Some("C18"),
         // storage code panicking is C17's; a panic of the simulation code while an io-world run steps it is not
